@@ -771,6 +771,28 @@ func (e *Env) evalCall(n SCall) Val {
 			case "trimSuffix":
 				return Val{T: Term{fmt.Sprintf("(ite (str.suffixof %s %s) (str.substr %s 0 (- (str.len %s) (str.len %s))) %s)", b.T.S, a.T.S, a.T.S, a.T.S, b.T.S, a.T.S), "String"}, Typ: a.Typ}
 			}
+		case "header":
+			if lit, ok := n.Args[0].(SStr); ok {
+				return Val{T: e.respHeader(lit.V), Typ: types.Typ[types.String]}
+			}
+			return e.fail("header() needs a literal name")
+		case "status":
+			return Val{T: e.respStatus(), Typ: types.Typ[types.Int]}
+		case "bodyLen":
+			if t, ok := e.respBodyLen(); ok {
+				return Val{T: t, Typ: types.Typ[types.Int]}
+			}
+			return Val{T: x.d.Fresh("bodylen", "Int"), Typ: types.Typ[types.Int]}
+		case "bodyCopied":
+			for _, ev := range e.st.resp {
+				if ev.Kind == "bodycopy" {
+					return Val{T: True, Typ: boolT}
+				}
+			}
+			return Val{T: False, Typ: boolT}
+		case "itoa":
+			v := e.eval(n.Args[0])
+			return x.itoa(e.st, v.T)
 		case "outer":
 			// outer(p): the entry value of parameter p of the enclosing
 			// (outermost) function, in the contract of a closure
@@ -897,6 +919,16 @@ func (e *Env) evalCall(n SCall) Val {
 								return x.pureApp(e.st, f, args)
 							}
 						}
+						if sf, ok := x.cs.Specs[sel.Name]; ok && sf.Pkg == p.Path() {
+							return e.applySpecFunc(sf, n.Args)
+						}
+						if tn, ok := p.Scope().Lookup(sel.Name).(*types.TypeName); ok && len(n.Args) == 1 {
+							v := e.eval(n.Args[0])
+							if v.Typ == nil {
+								v.Typ = tn.Type()
+							}
+							return x.convert(e.st, v, v.Typ, tn.Type())
+						}
 						return e.fail("unknown function %s.%s", id.Name, sel.Name)
 					}
 				}
@@ -1021,7 +1053,11 @@ func (x *Exec) pureApp(st *State, f *ssa.Function, args []Val) Val {
 		if o := f.Origin(); o != nil {
 			name = o.String()
 		}
-		return x.uninterp(st, fmt.Sprintf("lf_%s_%d", sanitize(name), 0), args, f.Signature.Results().At(0).Type())
+		r := x.uninterp(st, fmt.Sprintf("lf_%s_%d", sanitize(name), 0), args, f.Signature.Results().At(0).Type())
+		if f.Signature.Results().Len() == 1 {
+			x.libFacts(st, name, args, []Val{r})
+		}
+		return r
 	}
 	if f.Signature.Results().Len() != 1 {
 		x.note("spec-error: pure application of %s with %d results", f.String(), f.Signature.Results().Len())
@@ -1160,6 +1196,8 @@ func (x *Exec) execAsSpec(st *State, f *ssa.Function, args []Val) (Val, bool) {
 		return Val{}, false
 	}
 	savedClasses := x.classes
+	savedPos := x.curPos
+	defer func() { x.curPos = savedPos }()
 	savedTrunc, savedPaths := x.truncated, x.paths
 	savedStack := x.inlineStack
 	x.classes = map[string]bool{}
